@@ -371,13 +371,17 @@ class Executor:
         # merge all return outcomes
         if not results: return []
         if len(results)==1: return results
+        israise=lambda v: isinstance(v,tuple) and len(v)>0 and isinstance(v[0],str) and v[0]=='raise'
+        raising=[(s,v) for s,v in results if israise(v)]
+        results=[(s,v) for s,v in results if not israise(v)]
+        if len(results)<=1: return results+raising
         sts=[s for s,_ in results]; vals=[v for _,v in results]
         m,guards=merge_states(sts)
         try:
             mv=merge_vals(guards, vals)
         except Unsupported:
-            return results
-        return [(m,mv)]
+            return results+raising
+        return [(m,mv)]+raising
 
     def _exec_from(self, r, label, idx, env, state, args, stop, results, sig, arrivals=None, prev=None):
         """execute from (label, idx) until Return (append to results) or reaching block `stop` (append (state,env,prev) to arrivals)"""
@@ -465,8 +469,13 @@ class Executor:
                             s2=state.fork(); s2.pc.append(cond)
                             self._exec_from(r, br, 0, dict(env), s2, args, stop, results, sig, arrivals, label)
                         state.pc.append(feas[0][1]); prev=label; label=feas[0][0]; idx=0; jumped=True; break
-                if isinstance(st, ir.Raise) or isinstance(st, ir.StaticRaise) or type(st).__name__ in ("StaticRaise","Raise"):
-                    results.append((state, ('raise', getattr(st,'exc_class',None), getattr(st,'exc_args',None)))); return
+                if isinstance(st, ir.Raise) or isinstance(st, ir.StaticRaise) or type(st).__name__ in ("StaticRaise","Raise","DynamicRaise"):
+                    ecls=getattr(st,'exc_class',None); eargs=getattr(st,'exc_args',None)
+                    if ecls is None and getattr(st,'exception',None) is not None:
+                        ev_=env.get(st.exception.name)
+                        if isinstance(ev_, tuple) and ev_ and ev_[0]=='exc': ecls, eargs = ev_[1], ev_[2]
+                        elif isinstance(ev_, type): ecls=ev_
+                    results.append((state, ('raise', ecls, eargs))); return
                 raise Unsupported(f"stmt {type(st)} {st}")
             if not jumped:
                 raise Unsupported("fell off block")
@@ -929,6 +938,8 @@ class Executor:
         if isinstance(f, Dispatcher):
             outs=self.call_dispatcher(f, state, a, sig)
             return outs
+        if isinstance(f, type) and issubclass(f, BaseException):
+            return ('exc', f, tuple(a))
         raise Unsupported(f"call {f}")
 
 class PySlice:
